@@ -5,8 +5,27 @@ package main
 //                             makeSortedSlicesFromMap 8 times (8 iteration orders); all
 //                             results must agree; answer = sorted keys, `,`-joined codes,
 //                             or ORDER-DEPENDENT
+//   walk intern <k1> … [| <z1> …]  a map[string]interface{} with these member names (numbers
+//                             as values, "Atype" holds "hash") and, after `|`, a member
+//                             "zKeyOrder" listing those strings, decoded by the real
+//                             zygo.GoToSexp in a fresh interpreter, 8 times (8 iteration
+//                             orders of the Go map); answer = the names the decode interned
+//                             in symbol-NUMBER order (what symnum exposes), `,`-joined
+//                             codes, or ORDER-DEPENDENT when two decodes number them differently
+//   walk api <entry> <program>   the exported conversion entry points that walk a hash's buckets
+//                             or a Go map, called DIRECTLY (an embedder's view; several are not
+//                             reachable from any builtin): the program (dot-coded) is evaluated
+//                             in a fresh interpreter to get a value, the entry point converts it,
+//                             and the observation is the rendered result + error text + the names
+//                             interned at run time in symbol-number order; 8 fresh interpreters
+//                             (8 iteration orders); answer `stable` or ORDER-DEPENDENT <a> <b>.
+//                             entries: togo (SexpToGo), roundtrip (GoToSexp after SexpToGo),
+//                             mapss / mapsf / mapif / mapsi (SexpToGoStructs into *map[string]string,
+//                             *map[string]float64, *map[int64]float64, *map[string]interface{}),
+//                             json (SexpToJson + JsonToSexp), msgpack (SexpToMsgpack + MsgpackToSexp)
 
 import (
+	"fmt"
 	"strings"
 
 	"github.com/glycerine/zygomys/v9/zygo"
@@ -44,8 +63,210 @@ func walkExec(toks []string) string {
 			}
 		}
 		return first
+	case "api":
+		if len(toks) != 3 {
+			return "bad-op"
+		}
+		pb, ok := codesToBytes(toks[2])
+		if !ok {
+			return "bad-op"
+		}
+		first := ""
+		for r := 0; r < 8; r++ {
+			o := walkAPIOnce(toks[1], string(pb))
+			if r == 0 {
+				first = o
+			} else if o != first {
+				a, b := diffWindow(first, o)
+				return "ORDER-DEPENDENT " + bytesToCodes([]byte(a)) + " " + bytesToCodes([]byte(b))
+			}
+		}
+		if strings.HasPrefix(first, "bad-op") {
+			return "bad-op"
+		}
+		return "stable"
+	case "intern":
+		m := map[string]interface{}{}
+		sawBar := false
+		var znames []interface{}
+		for i, c := range toks[1:] {
+			if c == "|" {
+				sawBar = true
+				continue
+			}
+			b, ok := codesToBytes(c)
+			if !ok {
+				return "bad-op"
+			}
+			if sawBar {
+				znames = append(znames, string(b))
+			} else if string(b) == "Atype" {
+				m["Atype"] = "hash"
+			} else {
+				m[string(b)] = i
+			}
+		}
+		if sawBar {
+			m["zKeyOrder"] = znames
+		}
+		first := ""
+		for r := 0; r < 8; r++ {
+			env := zygo.NewZlisp()
+			base := zygo.VerifSymCounter(env)
+			pre, _ := zygo.VerifSymMaps(env)
+			for k := range m {
+				if _, ok := pre[k]; ok && k != "Atype" && k != "zKeyOrder" {
+					env.Close()
+					return "PREINTERNED " + k
+				}
+			}
+			func() {
+				defer func() { recover() }() // SetHashKeyOrder may reject the list: the numbering stands
+				zygo.GoToSexp(m, env)
+			}()
+			var parts []string
+			for _, e := range zygo.VerifSymTable(env) {
+				if e.Num >= base {
+					parts = append(parts, bytesToCodes([]byte(e.Name)))
+				}
+			}
+			env.Close()
+			s := strings.Join(parts, ",")
+			if s == "" {
+				s = "-"
+			}
+			if r == 0 {
+				first = s
+			} else if s != first {
+				return "ORDER-DEPENDENT"
+			}
+		}
+		return first
 	}
 	return "bad-op"
+}
+
+// walkAPIOnce: one fresh interpreter, one conversion, the canonical observation.
+func walkAPIOnce(entry, prog string) (obs string) {
+	detProcessSetup()
+	env := detFreshEnv()
+	defer env.Close()
+	val, err := env.EvalString(prog + "\n")
+	if err != nil {
+		return "PROGRAM-ERROR " + err.Error()
+	}
+	base := zygo.VerifSymCounter(env)
+	res := ""
+	func() {
+		defer func() {
+			if r := recover(); r != nil {
+				res = "PANIC " + strings.SplitN(fmt.Sprint(r), "\n", 2)[0]
+			}
+		}()
+		switch entry {
+		case "togo":
+			// fmt prints Go maps with sorted keys
+			res = fmt.Sprintf("%v", zygo.SexpToGo(val, env, nil))
+		case "roundtrip":
+			back, err := zygo.GoToSexp(zygo.SexpToGo(val, env, nil), env)
+			if err != nil {
+				res = "ERR " + err.Error()
+			} else {
+				res = back.SexpString(nil)
+			}
+		case "mapss":
+			t := map[string]string{}
+			_, err := zygo.SexpToGoStructs(val, &t, env, nil, 0, &t)
+			res = fmt.Sprintf("%v %v", t, err)
+		case "mapsf":
+			t := map[string]float64{}
+			_, err := zygo.SexpToGoStructs(val, &t, env, nil, 0, &t)
+			res = fmt.Sprintf("%v %v", t, err)
+		case "mapif":
+			t := map[int64]float64{}
+			_, err := zygo.SexpToGoStructs(val, &t, env, nil, 0, &t)
+			res = fmt.Sprintf("%v %v", t, err)
+		case "mapsi":
+			t := map[string]interface{}{}
+			_, err := zygo.SexpToGoStructs(val, &t, env, nil, 0, &t)
+			res = fmt.Sprintf("%v %v", t, err)
+		case "json":
+			js := zygo.SexpToJson(val)
+			back, err := zygo.JsonToSexp([]byte(js), env)
+			if err != nil {
+				res = js + " ERR " + err.Error()
+			} else {
+				res = js + " " + back.SexpString(nil)
+			}
+		case "msgpack":
+			by, _ := zygo.SexpToMsgpack(val)
+			back, err := zygo.MsgpackToSexp(by, env)
+			if err != nil {
+				res = fmt.Sprintf("%x ERR %s", by, err.Error())
+			} else {
+				res = fmt.Sprintf("%x %s", by, back.SexpString(nil))
+			}
+		default:
+			res = "bad-op"
+		}
+	}()
+	var sb strings.Builder
+	for _, e := range zygo.VerifSymTable(env) {
+		if e.Num >= base {
+			sb.WriteString(" " + e.Name)
+		}
+	}
+	res = ptrRe.ReplaceAllString(res, "0xPTR")
+	return res + "\nS:" + sb.String()
+}
+
+var walkAPIEntries = []string{"togo", "roundtrip", "mapss", "mapsf", "mapif", "mapsi", "json", "msgpack"}
+
+// walkAPIValue: a program whose value is a hash the entry point can take (string keys that
+// no program text mentions as symbols, symbol keys, nested hashes, values of the right type).
+func walkAPIValue(g *Gen, entry string) string {
+	names := []string{"zqa", "zqb", "zqc", "zqd", "zqe", "zqf", "Zq", "yq"}
+	g.Rng.Shuffle(len(names), func(i, j int) { names[i], names[j] = names[j], names[i] })
+	n := 2 + g.Rng.Intn(5)
+	var sb strings.Builder
+	sb.WriteString("(hash")
+	for i, k := range names[:n] {
+		key := `"` + k + `"`
+		if entry == "mapif" {
+			key = fmt.Sprint(i*7 + 1)
+		} else if g.Rng.Intn(4) == 0 {
+			key = k + ":" // a symbol key (interned by the parser)
+		}
+		var v string
+		switch entry {
+		case "mapss":
+			v = `"v` + fmt.Sprint(i) + `"`
+			if g.Rng.Intn(8) == 0 {
+				v = "7" // a value of the wrong type: the error text must not depend on the walk
+			}
+		case "mapsf", "mapif":
+			v = fmt.Sprintf("%d.5", i)
+			if g.Rng.Intn(8) == 0 {
+				v = `"notanumber"`
+			}
+		case "mapsi":
+			// SexpToGoStructs cannot fill an interface{} element from a number, a string or an
+			// array (each fails with its own text): members of ONE kind, so that the text does not
+			// depend on which member the walk meets first (the mixed case is a fixed op, below)
+			v = fmt.Sprint(i + 1)
+		default:
+			v = fmt.Sprint(i + 1)
+			switch g.Rng.Intn(5) {
+			case 0:
+				v = `(hash "` + k + `in" 1 "` + k + `ib" "s")`
+			case 1:
+				v = `["` + k + `el" 2]`
+			}
+		}
+		sb.WriteString(" " + key + " " + v)
+	}
+	sb.WriteString(")")
+	return sb.String()
 }
 
 func walkGen(g *Gen) {
@@ -82,6 +303,68 @@ func walkGen(g *Gen) {
 		}
 		g.Count("sorted random size " + map[bool]string{true: "1-4", false: "5-12"}[k <= 4])
 		g.Emit("sorted %s", strings.Join(ks, " "))
+	}
+	// the exported conversion entry points, called directly
+	napi := 6
+	if g.Thorough() {
+		napi = 60
+	}
+	for _, e := range walkAPIEntries {
+		for i := 0; i < napi; i++ {
+			g.Count("api " + e)
+			g.Emit("api %s %s", e, bytesToCodes([]byte(walkAPIValue(g, e))))
+		}
+	}
+	// two members that fail differently, into *map[string]interface{} (SexpToGoStructs#3)
+	g.Count("api mapsi mixed unconvertible members")
+	g.Emit("api mapsi %s", bytesToCodes([]byte(`(hash "zqa" 1 "zqb" ["el" 2] "zqc" "s")`)))
+	// decoder interning: member names no fresh interpreter knows
+	names := []string{"zqa", "zqb", "zqB", "zq_", "zq0", "zqaa", "zqab", "Zq", "zzq", "zzzq", "yq", "q~", "zKeyOrdeq", "zKeyOrderq", "Atypf", "Atyp", "zq é"}
+	enc := func(ss []string) string {
+		var cs []string
+		for _, s := range ss {
+			cs = append(cs, bytesToCodes([]byte(s)))
+		}
+		return strings.Join(cs, " ")
+	}
+	pick := func(k int) []string {
+		p := g.Rng.Perm(len(names))
+		var r []string
+		for _, i := range p[:k] {
+			r = append(r, names[i])
+		}
+		return r
+	}
+	for i := 0; i < n/2; i++ {
+		ks := pick(1 + g.Rng.Intn(9))
+		if g.Rng.Intn(3) == 0 {
+			ks = append(ks, "Atype")
+			g.Rng.Shuffle(len(ks), func(i, j int) { ks[i], ks[j] = ks[j], ks[i] })
+		}
+		switch g.Rng.Intn(4) {
+		case 0:
+			g.Count("intern foreign object (no zKeyOrder)")
+			g.Emit("intern %s", enc(ks))
+		case 1:
+			// zKeyOrder = a permutation of the member names (what (json h) writes)
+			var zs []string
+			for _, k := range ks {
+				if k != "Atype" {
+					zs = append(zs, k)
+				}
+			}
+			g.Rng.Shuffle(len(zs), func(i, j int) { zs[i], zs[j] = zs[j], zs[i] })
+			g.Count("intern own object (zKeyOrder = permutation of the members)")
+			g.Emit("intern %s | %s", enc(ks), enc(zs))
+		case 2:
+			// zKeyOrder names things that are not members, and misses some
+			zs := pick(1 + g.Rng.Intn(5))
+			g.Count("intern zKeyOrder with other names")
+			g.Emit("intern %s | %s", enc(ks), enc(zs))
+		case 3:
+			g.Count("intern empty zKeyOrder")
+			g.Emit("intern %s |", enc(ks))
+		}
 	}
 }
 
